@@ -17,15 +17,15 @@ pub struct CheckDef {
 }
 
 pub const CHECKS: &[CheckDef] = &[
-    CheckDef { id: "C01", quick_runs: 3000, thorough_runs: 150_000, level: "exploration", title: "every interleaving outcome is explored" },
-    CheckDef { id: "C02", quick_runs: 1600, thorough_runs: 60_000, level: "exploration", title: "every RC11-allowed outcome without load buffering is explored" },
-    CheckDef { id: "C03", quick_runs: 2000, thorough_runs: 80_000, level: "exploration", title: "every explored execution is RC11-consistent" },
-    CheckDef { id: "C04", quick_runs: 3000, thorough_runs: 150_000, level: "exploration", title: "data races are reported exactly" },
-    CheckDef { id: "C05", quick_runs: 3000, thorough_runs: 150_000, level: "exploration", title: "deadlocks are reported exactly" },
-    CheckDef { id: "C07", quick_runs: 3000, thorough_runs: 150_000, level: "exploration", title: "Mutex/RwLock exclusion, blocking, hand-over" },
-    CheckDef { id: "C08", quick_runs: 3000, thorough_runs: 150_000, level: "exploration", title: "waiting primitives wake exactly on notification" },
-    CheckDef { id: "C09", quick_runs: 3000, thorough_runs: 150_000, level: "exploration", title: "mpsc: once, in order, with ordering" },
-    CheckDef { id: "C14", quick_runs: 2000, thorough_runs: 80_000, level: "exploration", title: "exploration terminates and never repeats" },
+    CheckDef { id: "C01", quick_runs: 12000, thorough_runs: 150_000, level: "exploration", title: "every interleaving outcome is explored" },
+    CheckDef { id: "C02", quick_runs: 3000, thorough_runs: 60_000, level: "exploration", title: "every RC11-allowed outcome without load buffering is explored" },
+    CheckDef { id: "C03", quick_runs: 3000, thorough_runs: 80_000, level: "exploration", title: "every explored execution is RC11-consistent" },
+    CheckDef { id: "C04", quick_runs: 6000, thorough_runs: 150_000, level: "exploration", title: "data races are reported exactly" },
+    CheckDef { id: "C05", quick_runs: 20000, thorough_runs: 150_000, level: "exploration", title: "deadlocks are reported exactly" },
+    CheckDef { id: "C07", quick_runs: 10000, thorough_runs: 150_000, level: "exploration", title: "Mutex/RwLock exclusion, blocking, hand-over" },
+    CheckDef { id: "C08", quick_runs: 15000, thorough_runs: 150_000, level: "exploration", title: "waiting primitives wake exactly on notification" },
+    CheckDef { id: "C09", quick_runs: 15000, thorough_runs: 150_000, level: "exploration", title: "mpsc: once, in order, with ordering" },
+    CheckDef { id: "C14", quick_runs: 5000, thorough_runs: 80_000, level: "exploration", title: "exploration terminates and never repeats" },
 ];
 
 pub fn check_def(id: &str) -> Option<&'static CheckDef> {
@@ -286,8 +286,8 @@ pub fn witnesses(check: &str) -> Vec<(&'static str, Program, &'static str)> {
                 Op::Join { t: 1 },
                 Op::Join { t: 2 },
             ],
-            vec![Op::CWrite { c: 0 }, Op::Fence { o: MO::Sc }, Op::Store { a: 0, v: 16, o: MO::Rlx }],
-            vec![Op::Load { a: 1, o: MO::Rlx }, Op::Fence { o: MO::Sc }, Op::If { pc: 0, eq: 32, then: Box::new(Op::CWrite { c: 0 }) }],
+            vec![Op::CWrite { c: 0, v: 7 }, Op::Fence { o: MO::Sc }, Op::Store { a: 0, v: 16, o: MO::Rlx }],
+            vec![Op::Load { a: 1, o: MO::Rlx }, Op::Fence { o: MO::Sc }, Op::If { pc: 0, eq: 32, then: Box::new(Op::CWrite { c: 0, v: 7 }) }],
         ];
         v.push(("K6-ops-without-scheduling-point", p, "missed_report"));
     }
